@@ -63,8 +63,9 @@ fn chex(c: char) -> String {
     let mut b = [0u8; 4];
     hex(c.encode_utf8(&mut b).as_bytes())
 }
-pub const OPS: [Op; 33] = [
+pub const OPS: [Op; 36] = [
     Skip(1), Skip(2), SkipBack(1), SkipBack(2), Trim, TrimStart, TrimEnd,
+    TrimMatches("aba"), TrimMatches("aa"), TrimMatches("-a-"),
     TrimMatches("a"), TrimMatches("ab"), TrimMatches(""), TrimStartMatches("a"), TrimStartMatches("-"), TrimEndMatches("é"), TrimEndMatches("a"),
     StripPrefix("a"), StripPrefix("é"), StripPrefix(""), StripSuffix("a"), StripSuffix("-"),
     FindSkip("a"), FindSkip("-"), FindSkip("ab"), FindSkip(""), RFindSkip("a"), RFindSkip("é"),
@@ -354,7 +355,8 @@ pub fn run(cfg: &Cfg, out: &mut Out) {
     // regression corpus: F3 (two-sided trims must not add the bytes trimmed at the end)
     for (s, ops) in [
         ("  a  ", vec![Trim]), ("  a  ", vec![Trim, Skip(1)]), ("aabaa", vec![TrimMatches("a"), FindSkip("b")]),
-        ("ababa", vec![TrimMatches("ab")]), ("é-é", vec![Skip(1), SkipBack(1)]), ("a-b-", vec![SplitTerminator("-"), SplitTerminator("-"), SplitTerminator("-")]),
+        ("ababa", vec![TrimMatches("ab")]), ("ababa", vec![TrimMatches("aba")]), ("ababa", vec![TrimMatches("aba"), Skip(1)]), ("aaa", vec![TrimMatches("aa")]),
+        ("-a-a-", vec![TrimMatches("-a-"), SkipBack(1)]), ("aabaa", vec![TrimMatches("aa"), StripPrefix("b")]), ("é-é", vec![Skip(1), SkipBack(1)]), ("a-b-", vec![SplitTerminator("-"), SplitTerminator("-"), SplitTerminator("-")]),
         ("-a-b", vec![RSplitTerminator("-"), RSplitTerminator("-"), RSplitTerminator("-")]), ("a-b", vec![Split("-"), Split("-"), Split("-")]),
     ] {
         emit(out, s, 0, &ops);
